@@ -55,3 +55,4 @@ REG.ghost('reads', List(INT))         # sizes passed to wsgi.input.read
 REG.ghost('received', List(Ref('Packet')))   # packets handed to Socket.receive, in order
 from pyvc.lib_rt import FR_T  # noqa: E402
 REG.ghost('ws_log', List(FR_T))       # frames read from / written to the WebSocket, interleaved
+REG.ghost('hresults', List(ANY))       # values returned by application handlers, in order
